@@ -18,3 +18,15 @@ func init() {
 		Rules:   []string{"C01.R1", "C01.R2", "C01.R3", "C01.R4", "C20.R1", "C20.R2", "C09.R1"},
 		Explain: "tbd", NotDecided: []string{"tbd"}})
 }
+
+func init() {
+	registerProperty(&PropertyDef{ID: "C02", Title: "Condition flags describe exactly what happened to the result",
+		Rules:   []string{"C02.R1", "C02.R2", "C02.R3", "C02.R4", "C01.R2"},
+		Explain: "tbd", NotDecided: []string{"tbd"}})
+}
+
+func init() {
+	registerProperty(&PropertyDef{ID: "C03", Title: "Traps turn raised conditions into errors and never change or hide results",
+		Rules:   []string{"C03.R1", "C03.R2", "C03.R3", "C03.R4", "C03.R5"},
+		Explain: "tbd", NotDecided: []string{"tbd"}})
+}
